@@ -52,6 +52,10 @@ def run(ck: Check):
                 files.append(body + KINDS[combo[-1]] + last)
     files += [b"DDBE\nGIN\nx\nDDEND\n", b"DDBEGI\xc2\x85N\nDDEND\n", b"DDBEGIN\nDD\xe2\x80\xa8END\nDDEND\n",
               b"\xffDDBEGIN\xff\n\xc2\nDDEND\xc2", b"DDBEGIN\rDDEND\r"]
+    # the same arrangements with bytes that are not UTF-8 ON the marker lines (a Latin-1 comment around the marker word):
+    # a malformed file is a Lithium error whatever else its lines hold, a well-formed one keeps its boundaries
+    files += [f.replace(b"a DD", b"r\xe9gion DD").replace(b"c DD", b"\xe9\xff DD").replace(b"x DD", b"\xa4 DD").replace(b"DDEND DDB", b"DDEND\xfe DDB")
+              for f in files[::3] if b"DD" in f]
     cases, impl = [], []
     for data in files:
         ref = reference(data)
@@ -121,7 +125,8 @@ def early(ck):
     from lithium.reducer import Lithium
     from lithium.util import LithiumError
     from runner import SCRATCH_ROOT
-    for data in (b"DDEND\nDDBEGIN\n", b"DDBEGIN\nx\n", b"x DDEND\n", b"a\nDDBEGIN\nDDBEGIN\n"):
+    for data in (b"DDEND\nDDBEGIN\n", b"DDBEGIN\nx\n", b"x DDEND\n", b"a\nDDBEGIN\nDDBEGIN\n", b"// r\xe9gion DDEND\nx\n", b"\xff DDBEGIN \xfe\nx\n",
+                 b"ok\n\xe9 DDEND DDBEGIN\xa4\n"):
         d = tempfile.mkdtemp(prefix="lv-", dir=SCRATCH_ROOT)
         try:
             path = os.path.join(d, "t.txt")
